@@ -37,7 +37,25 @@ def match_known(pid, v, known):
     return None
 
 
-def _run_worker(pid, case, timeout):
+def _watchdog_only(res):
+    """A case whose only 'failure' is our own wall-clock watchdog around the plugin run is undecided, never a violation
+    (a loaded machine must not turn into an alarm); it is retried once with a three times larger budget."""
+    vs = res.get("violations") or []
+    def wd(v):
+        d = v.get("detail")
+        return v.get("clause") == "generation-fails" and isinstance(d, dict) and d.get("exc_type") == "Timeout"
+    if vs and any(wd(v) for v in vs):
+        rest = [v for v in vs if not wd(v)]
+        if rest:
+            res["violations"] = rest
+            res.setdefault("counters", {})["generation_watchdog_fired"] = 1
+            return res
+        return {"verdict": "inconclusive", "why": "generation watchdog fired (plugin run exceeded its wall-clock budget)",
+                "counters": {"generation_watchdog_fired": 1}}
+    return res
+
+
+def _run_worker(pid, case, timeout, gen_scale=1):
     from vlib import pipeline
     sdir = pipeline.new_scratch("w")
     cf_, of_ = os.path.join(sdir, "case.json"), os.path.join(sdir, "out.json")
@@ -48,6 +66,7 @@ def _run_worker(pid, case, timeout):
     env["PYTHONHASHSEED"] = "0"
     env["PYTHONDONTWRITEBYTECODE"] = "1"
     env["VP_CASE_SCRATCH"] = sdir
+    env["VERIF_GEN_TIMEOUT_SCALE"] = str(gen_scale)
     t0 = time.time()
     try:
         p = subprocess.run([PY, "-m", "vlib.worker", pid, cf_, of_], env=env,
@@ -55,7 +74,7 @@ def _run_worker(pid, case, timeout):
         err = p.stderr.decode("utf-8", "replace")
         if os.path.exists(of_):
             with open(of_) as fh:
-                res = json.load(fh)
+                res = _watchdog_only(json.load(fh))
         else:
             res = {"verdict": "inconclusive", "why": "worker died rc=%s: %s" % (p.returncode, err[-1500:])}
     except subprocess.TimeoutExpired:
@@ -83,7 +102,7 @@ def run_cases(pid, mod, cases, parallel, timeout, progress=True):
     retry = [i for i, r in enumerate(results) if r.get("verdict") == "inconclusive" and not r.get("no_retry")]
     if retry:
         with cf.ThreadPoolExecutor(max(1, parallel // 2)) as ex:
-            futs = {ex.submit(_run_worker, pid, cases[i], timeout * 2): i for i in retry}
+            futs = {ex.submit(_run_worker, pid, cases[i], timeout * 3, 3): i for i in retry}
             for f in cf.as_completed(futs):
                 i = futs[f]
                 r = f.result()
@@ -109,7 +128,7 @@ def main(argv=None):
     if args.replay:
         with open(args.replay) as fh:
             rp = json.load(fh)
-        res = _run_worker(pid, rp["case"], getattr(mod, "CASE_TIMEOUT", 600) * 2)
+        res = _run_worker(pid, rp["case"], getattr(mod, "CASE_TIMEOUT", 600) * 3, 3)
         print(json.dumps(res, indent=1)[:20000])
         known = load_known()
         bad = [v for v in res.get("violations", []) if not match_known(pid, v, known)]
